@@ -13,6 +13,27 @@ Property theorems about `IbModel/Model/Metrics.lean` (helper lemmas are in `Proo
 
 `Impl.atomic` is the current `increment_counter` (after the `fix:` commit); `Impl.legacySplit` is the
 pinned-commit code, kept with its negation witness.
+
+**What is proved and what is only checked, clause by clause.**
+* *no lost updates* — proved for every thread count, program and lock-granular schedule (`inc_atomic_sum`,
+  `atomic_refines_sequential`, `atomic_history_program_order`). The tie to the code: one critical section per
+  call is COUNTED inside src/metrics.rs (hook) and compared, real threads are driven through every schedule of
+  the small scope, plus free-running races.
+* *a collector never changes the result* — in the model this is STRUCTURAL: `runCollect` / `runCollectShared`
+  hand the node graph to `build` and never the metrics slot, so `metrics_do_not_affect_result`,
+  `shared_result_independent` and `collector_does_not_change_program_result` hold by construction and no code
+  change that makes the engine consult the collector can even be expressed in the model. The theorems only
+  record that fact; ALL assurance for this clause is the differential check: every `MRUN`/`MPOISON`/`MSLEEP`/
+  `MMID` case runs the real pipeline with and without a collector (also while another thread increments, sets
+  and registers on the shared collector) and compares both with the model's computed result and with a
+  plain-vector reference (>= 300 generated programs in the quick tier).
+* *start/end recorded, elapsed available* — proved on the model of `run_collect` for the value slot and for
+  the shared cell the user's handle points to (`elapsed_after_success`, `user_handle_sees_stamps`); the
+  boundary (slot emptied during the run) is `take_between_stamps_loses_end`.
+* *the JSON export contains every registered metric* — keys for every schedule (`json_contains_registered`),
+  values and descriptions of every metric kind (`json_after_register`, `json_entry_value_partial`,
+  `value_of_simple_kinds`, `hist_value_shape`, `hist_percentiles_ordered`), except the one shadowed name
+  (known finding, `json_shadows_user_metric`); `save_to_file` under the serialiser's round-trip law.
 -/
 namespace IB.Metrics
 
@@ -235,8 +256,8 @@ theorem current_is_atomic : currentImpl = .atomic := rfl
 
 /-! non-vacuity of the hypotheses of `inc_atomic_sum`: three threads, a set/register of ANOTHER name mixed in -/
 example :
-    let c0 : Collector := ⟨[("a", .counter 10), ("g", .other 1)], none, none⟩
-    let threads : List (List Op) := [[.inc "a" 1, .set "b" 7], [.inc "a" 2, .inc "a" 4], [.register "g" (.other 2), .inc "a" 8]]
+    let c0 : Collector := ⟨[("a", .counter 10), ("g", .other (.gauge 0 none))], none, none⟩
+    let threads : List (List Op) := [[.inc "a" 1, .set "b" 7], [.inc "a" 2, .inc "a" 4], [.register "g" (.other (.hist [] none)), .inc "a" 8]]
     CounterOrAbsent "a" c0 ∧ (∀ op ∈ threads.flatten, IncOnlyOn "a" op) ∧
       (run .atomic [2, 0, 1, 2, 1, 0] (Sys.init c0 threads)).complete = true ∧
       counterVal "a" (run .atomic [2, 0, 1, 2, 1, 0] (Sys.init c0 threads)).c = 25 := by
@@ -541,6 +562,246 @@ theorem collector_does_not_change_program_result (m : RunMode) (g : Graph) (t0 t
   subst hg
   cases m <;> simp [runCollectProg, runCollect, planOf, execMode, runPlain, runSeq, runPar,
     Pipe.setMetrics, Pipe.recordMetricsStart]
+
+/-! ## the VALUES of the export for every built-in metric kind; `register` compares names exactly -/
+
+/-- **Frame theorem of `register` for the export.** After `register(metric)` under the name `k` the member
+    `k` of `to_json()` is THAT metric — whatever its kind and whatever its `value()` is (a `null` value
+    included) — and every other member is what it was: names are compared as the exact strings, nothing is
+    normalised, merged or dropped. (`k = execution_time_ms` with both stamps set is the known finding.) -/
+theorem json_after_register (c : Collector) (k : String) (m : MetricVal)
+    (h : k ≠ execKey ∨ c.start = none ∨ c.stop = none) :
+    getJ k (toJson (register k m c)) = some (.metric m) ∧
+      ∀ k', k' ≠ k → getJ k' (toJson (register k m c)) = getJ k' (toJson c) := by
+  constructor
+  · have := json_value_registered_partial (register k m c) k h
+    rw [this]
+    simp [snapshot, register, insertSec, lookup_insert_self]
+  · intro k' hk'
+    have hne : k ≠ k' := fun e => hk' e.symm
+    by_cases hx : k' ≠ execKey ∨ c.start = none ∨ c.stop = none
+    · rw [json_value_registered_partial (register k m c) k' hx, json_value_registered_partial c k' hx]
+      simp [snapshot, register, insertSec, lookup_insert_ne _ _ hne]
+    · have hk : k' = execKey := by
+        by_cases hk : k' = execKey
+        · exact hk
+        · exact absurd (Or.inl hk) hx
+      cases hs : c.start with
+      | none => exact absurd (Or.inr (Or.inl hs)) hx
+      | some s =>
+        cases he : c.stop with
+        | none => exact absurd (Or.inr (Or.inr he)) hx
+        | some e =>
+          subst hk
+          rw [(json_exec_time_entry (register k m c) s e hs he).1, (json_exec_time_entry c s e hs he).1]
+
+/-- the same for `set_counter` and for an `increment_counter` that creates the counter -/
+theorem json_after_set_counter (c : Collector) (k : String) (n : Nat)
+    (h : k ≠ execKey ∨ c.start = none ∨ c.stop = none) :
+    getJ k (toJson (setCounter k n c)) = some (.metric (.counter n)) ∧
+      ∀ k', k' ≠ k → getJ k' (toJson (setCounter k n c)) = getJ k' (toJson c) :=
+  json_after_register c k (.counter n) h
+
+/-- `value()` / `description()` of the three simple kinds: a counter is its count (no description); a gauge
+    is its `f64` — `null` when it is not finite (NaN, ±inf), as `serde_json` has no such numbers — with its
+    description; a user metric's value and description are passed through -/
+theorem value_of_simple_kinds (sum0 n b : Nat) (v : String) (d : Option String) :
+    (MetricVal.counter n).value sum0 = .num (.uint n) ∧ (MetricVal.counter n).description = none ∧
+    (MetricVal.other (.gauge b d)).value sum0 = .num (if f64Finite b then .float b else .null) ∧
+    (MetricVal.other (.gauge b d)).description = d ∧
+    (MetricVal.other (.user v d)).value sum0 = .opaque v ∧ (MetricVal.other (.user v d)).description = d := by
+  refine ⟨rfl, rfl, ?_, rfl, rfl, rfl⟩
+  simp only [MetricVal.value, jsonOfF64]
+
+/-- **A metric whose value is `null` is still exported** (a NaN / infinite gauge; the key clause of the
+    property does not depend on the value): the member is there, its value is `null`, its description kept. -/
+theorem json_null_valued_metric_is_exported (c : Collector) (k : String) (b sum0 : Nat) (d : Option String)
+    (hb : f64Finite b = false) (h : k ≠ execKey ∨ c.start = none ∨ c.stop = none) :
+    k ∈ jsonKeys (register k (.other (.gauge b d)) c) ∧
+      (getJ k (toJson (register k (.other (.gauge b d)) c))).map (JsonEntry.value sum0) = some (.num .null) ∧
+      (getJ k (toJson (register k (.other (.gauge b d)) c))).map JsonEntry.description = some d := by
+  refine ⟨mem_jsonKeys_of_mem_keysOf _ (keysOf_insertSec_self _ _ _), ?_, ?_⟩
+  · rw [(json_after_register c k _ h).1]
+    simp [JsonEntry.value, MetricVal.value, jsonOfF64, hb]
+  · rw [(json_after_register c k _ h).1]
+    simp [JsonEntry.description, MetricVal.description]
+
+/-! witnesses: NaN, +inf are not finite, 1.5 and -0.0 are -/
+example : f64Finite 0x7FF8000000000000 = false ∧ f64Finite 0x7FF0000000000000 = false ∧
+    f64Finite 0x3FF8000000000000 = true ∧ f64Finite 0x8000000000000000 = true := by decide
+
+/-- names that differ only in case or in surrounding blanks are DIFFERENT metrics, and the empty name is a name -/
+example :
+    let c := register " a " (.counter 4) (register "" (.counter 3) (register "rows" (.counter 2)
+      (register "Rows" (.counter 1) Collector.empty)))
+    getJ "Rows" (toJson c) = some (.metric (.counter 1)) ∧ getJ "rows" (toJson c) = some (.metric (.counter 2)) ∧
+      getJ "" (toJson c) = some (.metric (.counter 3)) ∧ getJ " a " (toJson c) = some (.metric (.counter 4)) ∧
+      getJ "a" (toJson c) = none ∧ (toJson c).length = 4 := by decide
+
+/-- **Histogram.** `value()` is an object with exactly the members `count, sum, mean, min, max, p50, p95, p99`
+    (in this order), `count` is the number of recorded values, and the empty histogram is all zeros. The
+    float members are computed by `histStats` on `Float` (compared with the real code case by case). -/
+theorem hist_value_shape (sum0 : Nat) (vs : List Nat) :
+    ∃ fields, histValue sum0 vs = .obj fields ∧
+      fields.map Prod.fst = ["count", "sum", "mean", "min", "max", "p50", "p95", "p99"] ∧
+      fields.head? = some ("count", .uint vs.length) := by
+  refine ⟨_, rfl, rfl, ?_⟩
+  simp only [List.head?_cons, Option.some.injEq, Prod.mk.injEq, true_and, JNum.uint.injEq]
+  unfold histStats
+  cases vs with
+  | nil => rfl
+  | cons v r => simp [sortTotal_length]
+
+theorem hist_value_empty (sum0 : Nat) :
+    histValue sum0 [] = .obj [("count", .uint 0), ("sum", .float 0), ("mean", .float 0), ("min", .float 0),
+      ("max", .float 0), ("p50", .float 0), ("p95", .float 0), ("p99", .float 0)] := by
+  simp [histValue, histStats, jsonOfF64, f64Finite]
+
+/-- **The histogram's sort (current code, `f64::total_cmp`).** For ANY recorded values — NaN, infinities and
+    both zeros included — the sorted vector is a permutation of the recorded values and is ordered by
+    `total_cmp`; so `stats()` always returns, and with it `to_json` / `snapshot` / `print`. -/
+theorem hist_sort_total (vs : List Nat) : (sortTotal vs).Perm vs ∧ SortedTotal (sortTotal vs) :=
+  ⟨sortTotal_perm vs, sortTotal_sorted vs⟩
+
+/-- `min ≤ p50 ≤ p95 ≤ p99 ≤ max` in the `total_cmp` order, and each of them is one of the recorded values -/
+theorem hist_percentiles_ordered (sum0 : Nat) (vs : List Nat) (h : vs ≠ []) :
+    let s := histStats sum0 vs
+    totalKey s.min ≤ totalKey s.p50 ∧ totalKey s.p50 ≤ totalKey s.p95 ∧ totalKey s.p95 ≤ totalKey s.p99 ∧
+      totalKey s.p99 ≤ totalKey s.max ∧ s.min ∈ vs ∧ s.max ∈ vs ∧ s.p50 ∈ vs ∧ s.p95 ∈ vs ∧ s.p99 ∈ vs := by
+  have hne : vs.isEmpty = false := by cases vs <;> simp_all
+  have hlen : 0 < (sortTotal vs).length := by
+    rw [sortTotal_length]; exact List.length_pos_iff.mpr h
+  have hs := sortTotal_sorted vs
+  have hix := pctIdx_in_range' (sortTotal vs).length hlen
+  simp only [histStats, hne, Bool.false_eq_true, if_false]
+  have mem : ∀ i, i < (sortTotal vs).length → (sortTotal vs).getD i 0 ∈ vs := by
+    intro i hi
+    have e : (sortTotal vs).getD i 0 = (sortTotal vs)[i] := by simp [List.getD, List.getElem?_eq_getElem hi]
+    rw [e]
+    exact (sortTotal_perm vs).mem_iff.mp (List.getElem_mem hi)
+  simp only [pctIdx] at hix ⊢
+  refine ⟨sortedTotal_getD_mono _ hs _ _ (Nat.zero_le _) (by omega),
+    sortedTotal_getD_mono _ hs _ _ (by omega) (by omega),
+    sortedTotal_getD_mono _ hs _ _ (by omega) (by omega),
+    sortedTotal_getD_mono _ hs _ _ (by omega) (by omega),
+    mem _ hlen, mem _ (by omega), mem _ (by omega), mem _ (by omega), mem _ (by omega)⟩
+
+/-- **Negation witness for the pinned-commit comparator** `a.partial_cmp(b).unwrap_or(Equal)`: with a NaN it
+    is not transitive (1 = NaN, NaN = 2, but 1 < 2), i.e. not the total order `slice::sort_by` requires; the
+    standard library may then panic ("user-provided comparison function does not correctly implement a total
+    order") — observed on the real code with 33 values, 8 of them NaN: `to_json()`, `save_to_file()` and
+    `snapshot()` of the WHOLE collector panicked, so no registered metric was exported. -/
+theorem legacy_hist_comparator_not_a_total_order :
+    Legacy.cmpOrEqual (some 1) none = .eq ∧ Legacy.cmpOrEqual none (some 2) = .eq ∧
+      Legacy.cmpOrEqual (some 1) (some 2) = .lt := by decide
+
+/-- what the pinned-commit comparator did guarantee (`…_partial`): without a NaN it is the order of the numbers -/
+theorem legacy_hist_comparator_partial (a b : Int) : Legacy.cmpOrEqual (some a) (some b) = compare a b := rfl
+
+/-- `total_cmp` IS a total order on bit patterns: total, transitive (it is `≤` on `totalKey`) and
+    antisymmetric (only bit-identical values compare equal) -/
+theorem total_cmp_is_total_order (a b : Nat) (ha : a < 2 ^ 64) (hb : b < 2 ^ 64) :
+    (totalKey a ≤ totalKey b ∨ totalKey b ≤ totalKey a) ∧ (totalKey a = totalKey b → a = b) := by
+  refine ⟨by omega, ?_⟩
+  unfold totalKey
+  split <;> split <;> omega
+
+/-- the three percentile positions are inside a non-empty sorted vector (`sorted[..]` never panics) -/
+theorem pctIdx_in_range (n : Nat) (h : 0 < n) :
+    (pctIdx n).1 < n ∧ (pctIdx n).2.1 < n ∧ (pctIdx n).2.2 < n := by
+  simp only [pctIdx]
+  omega
+
+/-- exported VALUE and DESCRIPTION of every stored metric (`…_partial` for the same reason as
+    `json_value_registered_partial`: the one name `execution_time_ms` once both stamps are set) -/
+theorem json_entry_value_partial (c : Collector) (k : String) (sum0 : Nat)
+    (h : k ≠ execKey ∨ c.start = none ∨ c.stop = none) :
+    (getJ k (toJson c)).map (JsonEntry.value sum0) = (lookup k c.metrics).map (MetricVal.value sum0) ∧
+      (getJ k (toJson c)).map JsonEntry.description = (lookup k c.metrics).map MetricVal.description := by
+  rw [json_value_registered_partial c k h]
+  simp only [snapshot, Option.map_map]
+  exact ⟨rfl, rfl⟩
+
+/-- the execution-time member: the elapsed milliseconds and the fixed description -/
+theorem json_exec_time_value (c : Collector) (s e sum0 : Nat) (hs : c.start = some s) (he : c.stop = some e) :
+    (getJ execKey (toJson c)).map (JsonEntry.value sum0) = some (.num (.uint (e - s))) ∧
+      (getJ execKey (toJson c)).map JsonEntry.description = some (some execDesc) := by
+  rw [(json_exec_time_entry c s e hs he).1]
+  exact ⟨rfl, rfl⟩
+
+/-- **`save_to_file`** writes `to_json()`: whatever parser inverts the serialiser reads the same export
+    back from the file — in particular every registered metric and the execution time are in the file -/
+theorem save_to_file_roundtrip {σ : Type} (ser : List (String × JsonEntry) → σ)
+    (parse : σ → Option (List (String × JsonEntry))) (hlaw : ∀ j, parse (ser j) = some j) (c : Collector) :
+    parse (saveToFile ser c) = some (toJson c) := hlaw _
+
+/-! ## the slot holds a clone of the user's handle: what the USER's handle shows after a run -/
+
+/-- the result does not depend on the slot, the shared cell, the clock, or on anything done to the handle or
+    to the slot while the engine runs (STRUCTURAL in the model, like `metrics_do_not_affect_result`) -/
+theorem shared_result_independent {γ χ ε ρ : Type} (build : γ → Except ε χ) (exec : χ → Except ε ρ)
+    (t0 t1 t0' t1' : Nat) (mid : List MidEvent) (p : SharedPipe γ) :
+    (runCollectShared build exec t0 t1 mid p).1
+      = (runCollect build exec t0' t1' ⟨p.graph, none⟩).1 := by
+  have hg : (p.stampStart t0).graph = p.graph := by
+    unfold SharedPipe.stampStart; split <;> rfl
+  simp only [runCollectShared, runCollect, Pipe.recordMetricsStart, hg]
+  cases build p.graph <;> rfl
+
+/-- **The user's handle sees both stamps.** Collector attached, planning succeeds, and while the engine runs
+    the handle is used for anything EXCEPT writing stamps, and the slot is not emptied: afterwards the cell
+    the user's handle points to has `start = t0`, `end = t1`, `elapsed() = Some(t1 - t0)`, and the collector
+    is still attached. -/
+theorem user_handle_sees_stamps {γ χ ε ρ : Type} (build : γ → Except ε χ) (exec : χ → Except ε ρ)
+    (t0 t1 : Nat) (mid : List MidEvent) (p : SharedPipe γ) (chain : χ) (ha : p.attached = true)
+    (hb : build p.graph = .ok chain) (hm : ∀ ev ∈ mid, ev.keepsStamps = true) :
+    let q := (runCollectShared build exec t0 t1 mid p).2
+    q.attached = true ∧ q.cell.start = some t0 ∧ q.cell.stop = some t1 ∧ elapsed q.cell = some (t1 - t0) := by
+  intro q
+  have h1 : p.stampStart t0 = { p with cell := recordStart t0 p.cell } := by
+    unfold SharedPipe.stampStart; rw [if_pos ha]
+  have hk := mids_keep t0 mid { p with cell := recordStart t0 p.cell } hm
+  have hq : q = (mid.foldl (SharedPipe.mid t0) { p with cell := recordStart t0 p.cell }).stampEnd t1 := by
+    simp only [q, runCollectShared, h1, hb]
+  generalize mid.foldl (SharedPipe.mid t0) { p with cell := recordStart t0 p.cell } = r at hk hq
+  have hatt : r.attached = true := hk.1.trans ha
+  have hq2 : q = { r with cell := recordEnd t1 r.cell } := by
+    rw [hq]; unfold SharedPipe.stampEnd; rw [if_pos hatt]
+  rw [hq2]
+  have hst : r.cell.start = some t0 := hk.2.1
+  refine ⟨hatt, hst, rfl, ?_⟩
+  simp [elapsed, recordEnd, hst]
+
+/-- **`take_metrics` while the engine runs (`…_partial` boundary of the stamp clause).** Full statement wanted:
+    *after a successful run start and end are recorded in the collector that was attached*. That needs the
+    collector to STAY attached: if the slot is emptied between the two stamps, `record_metrics_end` finds no
+    collector — the handle shows the new start stamp and whatever end stamp it had before (none on a fresh
+    collector, so `elapsed()` is `None` although the run succeeded). Proved for every collector and clock. -/
+theorem take_between_stamps_loses_end {γ χ ε ρ : Type} (build : γ → Except ε χ) (exec : χ → Except ε ρ)
+    (t0 t1 : Nat) (p : SharedPipe γ) (chain : χ) (ha : p.attached = true) (hb : build p.graph = .ok chain) :
+    let q := (runCollectShared build exec t0 t1 [.take] p).2
+    q.attached = false ∧ q.cell.start = some t0 ∧ q.cell.stop = p.cell.stop ∧
+      (p.cell.stop = none → elapsed q.cell = none) := by
+  have h1 : p.stampStart t0 = { p with cell := recordStart t0 p.cell } := by simp [SharedPipe.stampStart, ha]
+  simp only [runCollectShared, h1, hb, List.foldl_cons, List.foldl_nil, SharedPipe.mid, SharedPipe.stampEnd]
+  refine ⟨rfl, rfl, rfl, ?_⟩
+  intro hs
+  simp [elapsed, recordStart, hs]
+
+/-! negation witness: a successful run, the slot emptied meanwhile — no elapsed time on the user's handle -/
+example : elapsed (runCollectShared (γ := Unit) (ε := String) (fun _ => .ok ()) (fun _ => (.ok 7 : Except String Nat))
+    3 9 [.take] ⟨(), true, Collector.empty⟩).2.cell = none ∧
+    (runCollectShared (γ := Unit) (ε := String) (fun _ => .ok ()) (fun _ => (.ok 7 : Except String Nat))
+    3 9 [.take] ⟨(), true, Collector.empty⟩).1 = .ok 7 := ⟨rfl, rfl⟩
+
+/-- with nothing happening meanwhile the shared model IS the value model of `runCollect` -/
+theorem shared_without_interference_is_runCollect {γ χ ε ρ : Type} (build : γ → Except ε χ)
+    (exec : χ → Except ε ρ) (t0 t1 : Nat) (p : SharedPipe γ) :
+    (runCollectShared build exec t0 t1 [] p).1 = (runCollect build exec t0 t1 p.toPipe).1 ∧
+      (runCollectShared build exec t0 t1 [] p).2.toPipe = (runCollect build exec t0 t1 p.toPipe).2 := by
+  cases ha : p.attached <;> cases hb : build p.graph <;>
+    simp [runCollectShared, runCollect, SharedPipe.stampStart, SharedPipe.stampEnd, SharedPipe.toPipe,
+      Pipe.recordMetricsStart, Pipe.recordMetricsEnd, ha, hb]
 
 /-- `Pipeline::set_metrics` / `get_metrics` / `take_metrics`: the attached collector is the one handed
     back, `take` leaves none behind, and none of them touches the node graph -/
